@@ -40,6 +40,11 @@ type row struct {
 	Flat int64  `json:"flat"`
 	Cum  int64  `json:"cum"`
 }
+type erow struct {
+	Src string `json:"src"`
+	Dst string `json:"dst"`
+	W   int64  `json:"w"`
+}
 type trow struct {
 	Stack []string `json:"stack"`
 	W     int64    `json:"w"`
@@ -61,6 +66,7 @@ type event struct {
 	Kind     string    `json:"kind,omitempty"`
 	Rows     []row     `json:"rows"`
 	Stacks   []trow    `json:"stacks"`
+	Edges    []erow    `json:"edges"`
 	Total    int64     `json:"total"`
 	HasTotal bool      `json:"hastotal"`
 	AF       []string  `json:"af"`   // focus given as an argument of the report command (this command only)
@@ -215,8 +221,11 @@ func randomLine(r *vlib.Rand, cli bool) line {
 		return line{fmt.Sprintf("relative_percentages=%v", b), event{Ev: "assign", Opt: "rel", B: b}}
 	case k < 8:
 		kind := "top"
-		if r.Intn(4) == 0 {
+		switch r.Intn(6) {
+		case 0:
 			kind = "traces"
+		case 1, 2:
+			kind = "tree"
 		}
 		l := line{kind, event{Ev: "report", Kind: kind}}
 		if !cli && r.Intn(3) == 0 {
@@ -301,6 +310,22 @@ func fillReport(e *event, out string) error {
 		e.Rows = []row{}
 		for _, n := range rows {
 			e.Rows = append(e.Rows, row{Fn: n.Name, Flat: n.Flat, Cum: n.Cum})
+		}
+		e.Total, e.HasTotal = lg.Total, lg.HasShowing
+	case "tree":
+		lg, nodes, edges, err := vdrv.Tree(out)
+		if err != nil {
+			return err
+		}
+		e.Rows = []row{}
+		for _, n := range nodes {
+			e.Rows = append(e.Rows, row{Fn: n.Name, Flat: n.Flat, Cum: n.Cum})
+		}
+		e.Edges = []erow{}
+		for _, x := range edges {
+			if x.Via == "out" { // every edge is listed twice: under its caller and under its callee
+				e.Edges = append(e.Edges, erow{Src: x.Src, Dst: x.Dst, W: x.W})
+			}
 		}
 		e.Total, e.HasTotal = lg.Total, lg.HasShowing
 	case "traces":
@@ -650,6 +675,9 @@ func oneRun(id int, r *vlib.Rand) {
 		if e.Stacks == nil {
 			e.Stacks = []trow{}
 		}
+		if e.Edges == nil {
+			e.Edges = []erow{}
+		}
 		if e.AF == nil {
 			e.AF = []string{}
 		}
@@ -695,5 +723,5 @@ func main() {
 	for i := 0; i < n; i++ {
 		oneRun(i, r)
 	}
-	run.Finish("whole runs of driver.PProf observed at the plug-in boundaries: 1-3 sources and 0-2 -base or -diff_base sources (each failing with probability 1/5), profile-level drop/keep frame rules, sources that are symbolized or address-only (the names then come from the Symbolizer plug-in, before the drop rules apply), x command-line mode, interactive sessions of 1-5 lines (focus / ignore / hide / show / granularity / sample_index / relative_percentages assignments, top / traces reports with per-command arguments, rejected and ignored lines) or a web server answering /top requests with per-request options, concretised with varying id layouts; every boundary event validated by TLC against the machine of Pprof.tla; non-trivial = distinct (mode, sources, lines)")
+	run.Finish("whole runs of driver.PProf observed at the plug-in boundaries: 1-3 sources and 0-2 -base or -diff_base sources (each failing with probability 1/5), profile-level drop/keep frame rules, sources that are symbolized or address-only (the names then come from the Symbolizer plug-in, before the drop rules apply), x command-line mode, interactive sessions of 1-5 lines (focus / ignore / hide / show / granularity / sample_index / relative_percentages assignments, top / tree / traces reports with per-command arguments, rejected and ignored lines) or a web server answering /top requests with per-request options, concretised with varying id layouts; every boundary event validated by TLC against the machine of Pprof.tla; non-trivial = distinct (mode, sources, lines)")
 }
